@@ -702,6 +702,17 @@ class Interp:
                         continue
                     out.append((s, AV("unk", sym=f"{base.sym or 'dict'}[{node.slice.value!r}]@entry", tags=frozenset({"entry"}))))
                     continue
+                if base.kind == "dict" and not isinstance(node.slice, (ast.Slice, ast.Constant)) and dslots(base):
+                    # d[k] where k is a variable holding a known constant key of a tracked mapping
+                    kv, kr = self.eval(s, node.slice)
+                    if len(kv) == 1 and kv[0][1].kind == "const" and not kr:
+                        try:
+                            hit = kv[0][1].val in dslots(base)
+                        except TypeError:
+                            hit = False
+                        if hit:
+                            out.append((kv[0][0], kv[0][0].view(dslots(base)[kv[0][1].val])))
+                            continue
                 if base.kind == "tuple" and isinstance(node.slice, ast.Constant) and isinstance(node.slice.value, int) and -len(base.val) <= node.slice.value < len(base.val):
                     out.append((s, base.val[node.slice.value]))
                     continue
@@ -758,7 +769,20 @@ class Interp:
                         elif av.kind == "dict" and not av.val[1]:
                             nxt.append((s2, {**acc, **dslots(av)}, open_, good))
                         elif av.kind == "dict" and av.sym and av.sym.startswith("p:") and not dslots(av):
-                            nxt.append((s2, dict(acc), True, good))  # own **kwargs: adds keys, overrides none of the named ones
+                            # own **kwargs: adds keys; it cannot hold a NAMED parameter of this function, any other key it may override
+                            fi_ = self.m.funcs.get(self.func_qual or "")
+                            named = set()
+                            if fi_ is not None:
+                                a_ = fi_.node.args
+                                named = {x.arg for x in a_.posonlyargs + a_.args + a_.kwonlyargs}
+                            acc2 = {}
+                            for k_, v_ in acc.items():
+                                if k_ in named:
+                                    acc2[k_] = v_
+                                else:
+                                    base_ = v_.sym if v_.sym else (repr(v_.val) if v_.kind == "const" else "?")
+                                    acc2[k_] = AV("unk", sym=f"over({base_},{av.sym})", tags=frozenset(set(v_.tags) | set(av.tags) | {"maybe-overridden"}))
+                            nxt.append((s2, acc2, True, good))
                         else:
                             nxt.append((s2, {}, True, False))  # a mapping the interpreter knows nothing about
                 cur = nxt
@@ -775,6 +799,43 @@ class Interp:
                     nxt += [(s2, {**acc, k.value: av}) for s2, av in vals]
                 cur = nxt
             return [(s, dict_av(acc, open_=False)) for s, acc in cur], raises
+        if isinstance(node, ast.DictComp) and len(node.generators) == 1 and not node.generators[0].ifs and not node.generators[0].is_async \
+                and isinstance(node.generators[0].target, ast.Name):
+            # {k: f(k) for k in <a constant tuple / list of names>}: unrolled into a closed mapping
+            g = node.generators[0]
+            ivals, iraises = self.eval(st, g.iter)
+            if len(ivals) == 1 and not iraises:
+                s0, itv = ivals[0]
+                elems = None
+                if itv.kind == "const" and isinstance(itv.val, (tuple, list)) and all(isinstance(x, (str, int)) for x in itv.val):
+                    elems = [const(x) for x in itv.val]
+                elif itv.kind == "tuple" and all(x.kind == "const" for x in itv.val):
+                    elems = list(itv.val)
+                if elems is not None and len(elems) <= 64:
+                    cur, raises, okc = [(s0, {})], [], True
+                    tv_ = self.var(g.target.id)
+                    for el in elems:
+                        nxt = []
+                        for s1, acc in cur:
+                            s2 = s1.copy()
+                            s2.env[tv_] = el
+                            kvs, r1 = self.eval(s2, node.key)
+                            raises += r1
+                            for s3, kav in kvs:
+                                vvs, r2 = self.eval(s3, node.value)
+                                raises += r2
+                                for s4, vav in vvs:
+                                    if kav.kind != "const":
+                                        okc = False
+                                    else:
+                                        nxt.append((s4, {**acc, kav.val: vav}))
+                        cur = nxt
+                    if okc and cur:
+                        res = []
+                        for s1, acc in cur:
+                            s1.env.pop(tv_, None)
+                            res.append((s1, dict_av(acc, open_=False)))
+                        return res, raises
         if isinstance(node, (ast.Lambda, ast.ListComp, ast.SetComp, ast.DictComp, ast.GeneratorExp)):
             r = self.rule.comprehension(self, st, node)
             if r is not None:
@@ -898,6 +959,14 @@ class Interp:
 
     def eval_call(self, st: State, node: ast.Call):
         f = node.func
+        if (isinstance(f, ast.Name) and f.id == "getattr" and len(node.args) == 2 and not node.keywords and isinstance(node.args[1], ast.Name)
+                and self.var("getattr") not in st.env and self.var(node.args[1].id) in st.env):
+            # getattr(x, name) where `name` holds a known constant identifier: the attribute access x.<name>
+            nv = st.view(st.env[self.var(node.args[1].id)])
+            if nv.kind == "const" and isinstance(nv.val, str) and nv.val.isidentifier():
+                fake = ast.copy_location(ast.Attribute(value=node.args[0], attr=nv.val, ctx=ast.Load()), node)
+                ast.fix_missing_locations(fake)
+                return self.eval(st, fake)
         if (isinstance(f, ast.Name) and f.id == "getattr" and (len(node.args) == 2 or (len(node.args) == 3 and self.rule.getattr_default_transparent)) and not node.keywords and isinstance(node.args[1], ast.Constant)
                 and isinstance(node.args[1].value, str) and node.args[1].value.isidentifier() and self.var("getattr") not in st.env):
             # getattr(x, "name"[, default]) where the rule knows attribute `name` of x: the attribute access x.name
@@ -934,7 +1003,10 @@ class Interp:
                         # d.update(<a mapping the interpreter does not know>): every known slot may have been overridden by it
                         # (the slot keeps its own provenance and gains the argument's), further keys may exist
                         arg = pos[0]
-                        sl = {k_: AV("unk", tags=frozenset(set(v_.tags) | set(arg.tags) | {"maybe-overridden"})) for k_, v_ in dslots(recv).items()}
+                        def _over(v_):
+                            base_ = v_.sym if v_.sym else (repr(v_.val) if v_.kind == "const" else "?")
+                            return AV("unk", sym=f"over({base_},{arg.sym or '?'})", tags=frozenset(set(v_.tags) | set(arg.tags) | {"maybe-overridden"}))
+                        sl = {k_: _over(v_) for k_, v_ in dslots(recv).items()}
                         sl.update(kw)
                         s3 = s2.copy()
                         s3.env[dk] = replace(recv, val=(tuple(sorted(sl.items(), key=lambda kv: str(kv[0]))), True), tags=frozenset(set(recv.tags) | set(arg.tags)))
@@ -1110,6 +1182,12 @@ class Interp:
                 s.env[sub.var(p)] = AV("unk", sym=f"{sub.frame}:param:{p}")
             else:
                 s.env[sub.var(p)] = AV("unk", sym=f"{sub.frame}:param:{p}")
+        if a.vararg:
+            # *args: the positional arguments beyond the named parameters (unknown when the call passes a *splat it cannot see)
+            if "*" in kw:
+                s.env[sub.var(a.vararg.arg)] = AV("unk", sym=f"{sub.frame}:args", none=False)
+            else:
+                s.env[sub.var(a.vararg.arg)] = AV("tuple", tuple(pos[len(params):]), truth=bool(pos[len(params):]), none=False)
         if a.kwarg:
             sl = dict(extra_kw)
             open_ = False
@@ -1205,12 +1283,19 @@ class Interp:
             for t, p in zip(target.elts, parts):
                 self.assign(st, t, p)
         elif isinstance(target, ast.Subscript):
+            key = _NOKEY = object()
             if isinstance(target.value, ast.Name) and isinstance(target.slice, ast.Constant):
+                key = target.slice.value
+            elif isinstance(target.value, ast.Name) and isinstance(target.slice, ast.Name):
+                kav = st.env.get(self.var(target.slice.id))
+                if kav is not None and st.view(kav).kind == "const" and isinstance(st.view(kav).val, (str, int)):
+                    key = st.view(kav).val  # d[k] = v with k a variable holding a known constant
+            if key is not _NOKEY:
                 k = self.var(target.value.id)
                 d = st.env.get(k)
                 if d is not None and d.kind == "dict":
                     sl = dslots(d)
-                    sl[target.slice.value] = av
+                    sl[key] = av
                     st.env[k] = replace(d, val=(tuple(sorted(sl.items(), key=lambda kv: str(kv[0]))), d.val[1]))
             self.rule.setitem(self, st, target, av)
 
@@ -1496,7 +1581,40 @@ class Interp:
                 outs.append(Out("normal", s))
         return outs
 
+    def _unrolled_for(self, stmt, st: State):
+        """`for x in <a short tuple of known constants>`: executed element by element (term-building rules only)."""
+        if not (isinstance(stmt, ast.For) and not stmt.orelse and getattr(self.rule, "unroll_const_loops", False)):
+            return None
+        vals, raises = self.eval(st, stmt.iter)
+        if len(vals) != 1 or raises:
+            return None
+        s0, itv = vals[0]
+        if itv.kind == "tuple" and 0 < len(itv.val) <= 6 and all(x.kind == "const" for x in itv.val):
+            elems = list(itv.val)
+        elif itv.kind == "const" and isinstance(itv.val, tuple) and 0 < len(itv.val) <= 6 and all(isinstance(x, (str, int, bytes)) for x in itv.val) and itv.sym is None:
+            elems = [const(x) for x in itv.val]
+        else:
+            return None
+        outs, cur, done = [], [s0], []
+        for el in elems:
+            nxt = []
+            for s1 in cur:
+                s2 = s1.copy()
+                self.assign(s2, stmt.target, el)
+                for o in self.exec_block(stmt.body, [s2]):
+                    if o.kind in ("normal", "continue"):
+                        nxt.append(o.st)
+                    elif o.kind == "break":
+                        done.append(o.st)
+                    else:
+                        outs.append(o)
+            cur = nxt
+        return dedup(outs + [Out("normal", e) for e in cur + done])
+
     def exec_loop(self, stmt, st: State):
+        r_ = self._unrolled_for(stmt, st)
+        if r_ is not None:
+            return r_
         outs, exits = [], []
         seen, work = set(), [st]
         rounds = 0
